@@ -143,13 +143,101 @@ def decode_contract(ploidy, r32, cap, table, ctx=None, dom=(), hint=None):
         cap.append((list(st.pc), args[0], args[1] if len(args) > 1 else kw.get('phased', False)))
         return SRecord('Call', {})
 
+    def as_tuple(eng, st, args, kw, node):
+        # tuple(xs): the KIND of the sequence matters to Call.__eq__ ([1, 2] != (1, 2)); a list of known length becomes a Python
+        # tuple of its elements (pyvc's own `tuple(...)` keeps the list value)
+        v = args[0] if len(args) == 1 and not kw else None
+        if isinstance(v, tuple):
+            return v
+        if isinstance(v, pyvc.SList):
+            n = z3.simplify(v.len)
+            if z3.is_int_value(n):
+                return tuple(z3.Select(v.arr, i_) for i_ in range(n.as_long()))
+        raise pyvc.Undecided('tuple(...) of a sequence of unknown length in the call decoder')
+
     return Contract(
         path=TYPES, qualname='_tcall._convert_from_encoding', label='_tcall._convert_from_encoding[ploidy=%d]' % ploidy,
         types={}, bv_checked=True, setup=setup,
         consts={'small_allele_pair': tuple(table)},
-        calls={'byte_reader.read_int32': read, 'genetics.Call': ctor, 'allele_pair': _inline_allele_pair(ctx), 'allele_pair_sqrt': _sqrt_model(hint)},
+        calls={'byte_reader.read_int32': read, 'genetics.Call': ctor, 'allele_pair': _inline_allele_pair(ctx), 'allele_pair_sqrt': _sqrt_model(hint), 'tuple': as_tuple},
         raises={'*': True},
     )
+
+
+class _KindEngine(pyvc.Engine):
+    """pyvc engine for hl.Call's own methods: `==` between sequences is Python's - a list never equals a tuple, two sequences of
+    the same kind are equal when they have the same length and equal elements (lengths are known here)"""
+
+    def equal(self, a, b):
+        def elems(v):
+            if isinstance(v, tuple):
+                return 'tuple', list(v)
+            if isinstance(v, pyvc.SList):
+                n = z3.simplify(v.len)
+                if z3.is_int_value(n):
+                    return 'list', [z3.Select(v.arr, i_) for i_ in range(n.as_long())]
+                raise pyvc.Undecided('equality of sequences of unknown length')
+            return None, None
+
+        (ka, xa), (kb, xb) = elems(a), elems(b)
+        if ka is not None and kb is not None:
+            if ka != kb or len(xa) != len(xb):
+                return z3.BoolVal(False)
+            return z3.And(*[pyvc.Engine.equal(self, x, y) for x, y in zip(xa, xb)]) if xa else z3.BoolVal(True)
+        return pyvc.Engine.equal(self, a, b)
+
+
+def _call_inliner(ctx):
+    """the real hl.Call (hail/python/hail/genetics/call.py): __init__ and __eq__ executed on the caller's values"""
+    if 'call' not in _INL:
+        inl = Inliner(ctx, ClassIndex([CALLPY]), calls={'isinstance': lambda eng, st, args, kw, node: True})
+        inl.engine_cls = _KindEngine
+        _INL['call'] = inl
+    return _INL['call']
+
+
+def _list_value(vals):
+    if not vals:
+        return pyvc.SList(z3.IntVal(0), None, None)
+    arr = z3.Const(pyvc.fresh_name('packed_alleles'), z3.ArraySort(z3.IntSort(), z3.BitVecSort(64)))
+    for i_, v in enumerate(vals):
+        arr = z3.Store(arr, i_, v)
+    return pyvc.SList(z3.IntVal(len(vals)), arr, 'bv64')
+
+
+def equal_calls_goal(ctx, ploidy, a0, a1, phased, dcap, hyps):
+    """the decoded call EQUALS the packed one under the real Call.__eq__, both built by the real Call.__init__: the packed call
+    from a list of its alleles (the documented parameter type), the decoded one from whatever the decoder hands to the
+    constructor on each of its paths (frozen positions - set elements, dict keys - included: _should_freeze is a free Boolean).
+    -> (goal, number of constructor paths, number of __eq__ evaluations, disjunction of the path conditions)"""
+    inl = _call_inliner(ctx)
+    # the bodies are run without path condition (their branches depend on `phased` and on known lengths only); every outcome is
+    # guarded by its own path condition below, so an infeasible combination is a true conjunct
+    packed = [(k_, rec, list(s.pc)) for k_, rec, s in inl.run_ctor('Call', args=[_list_value([bv64(a0), bv64(a1)][:ploidy]), phased], label='Call.__init__[packed ploidy=%d]' % ploidy)]
+    goals, feasible, n_eq = [], [], 0
+    for pi, (pc_, alleles, ph) in enumerate(dcap):
+        for kd, drec, ds in inl.run_ctor('Call', args=[alleles, ph], label='Call.__init__[decoded ploidy=%d path %d]' % (ploidy, pi)):
+            dpc = list(pc_) + list(ds.pc)
+            if kd != 'value':
+                goals.append(z3.Not(z3.And(*dpc)) if dpc else z3.BoolVal(False))
+                continue
+            for kp, prec, ppc in packed:
+                if kp != 'value':
+                    goals.append(z3.Not(z3.And(*ppc)) if ppc else z3.BoolVal(False))
+                    continue
+                if z3.is_false(z3.simplify(z3.And(*(dpc + ppc)))):
+                    continue  # e.g. decoded as phased, packed as unphased
+                for ke, res, es in inl.run_method(drec, '__eq__', args=[prec], label='Call.__eq__[ploidy=%d path %d]' % (ploidy, pi)):
+                    n_eq += 1
+                    guard = z3.And(*(dpc + ppc + list(es.pc))) if dpc + ppc + list(es.pc) else z3.BoolVal(True)
+                    feasible.append(guard)
+                    if ke == 'value' and isinstance(res, bool):
+                        res = z3.BoolVal(res)
+                    if ke != 'value' or not (isinstance(res, z3.ExprRef) and z3.is_bool(res)):
+                        goals.append(z3.Not(guard))  # raises / NotImplemented / not a Boolean
+                    else:
+                        goals.append(z3.Implies(guard, res))
+    return (z3.And(*goals) if goals else z3.BoolVal(False)), len(dcap), n_eq, (z3.Or(*feasible) if feasible else z3.BoolVal(False))
 
 
 def _domain(ploidy, a0, a1, phased):
@@ -224,6 +312,12 @@ def encode_decode(ctx, objs):
             goals.append(z3.Implies(cond, z3.And(*eq)))
         ctx.add(core.decided('C34/decode/ploidy=%d/decoder-reaches-the-Call-constructor' % ploidy, bool(dcap), '%d paths' % len(dcap), kind='vacuity'))
         ctx.add(core.valid('C34/decode/ploidy=%d/round-trip-same-alleles-and-phasing' % ploidy, dom, z3.And(*goals) if goals else z3.BoolVal(False), cvc5_first=(ploidy == 2)))
+        # the same round trip stated with the real hl.Call: decoded == packed under Call.__eq__ (element-wise agreement, just
+        # proved, is a hypothesis here: what is added is the constructor's normalisation and the KIND of the stored sequence)
+        eq_goal, n_paths, n_eq, eq_feasible = equal_calls_goal(ctx, ploidy, a0, a1, phased, dcap, dom + list(goals))
+        ctx.add(core.decided('C34/decode/ploidy=%d/Call.__eq__-evaluated-on-every-constructor-path' % ploidy, n_paths >= 1 and n_eq >= n_paths, '%d constructor paths, %d evaluations of Call.__eq__' % (n_paths, n_eq), kind='vacuity'))
+        ctx.add(core.satisfiable('C34/decode/ploidy=%d/vacuity/some-equality-path-is-feasible' % ploidy, dom + [eq_feasible]))
+        ctx.add(core.valid('C34/decode/ploidy=%d/decoded-call-equals-the-packed-call-under-the-real-Call.__eq__ (frozen positions included)' % ploidy, dom + list(goals), eq_goal))
         # ---- the engine reads the same fields back
         cobj = objs['Call']
         ctx.add(core.valid('C34/decode/ploidy=%d/engine-reads-back-ploidy-phasing-representation' % ploidy, dom, z3.And(cobj.funcs['ploidy'].sym(r).value == ploidy, cobj.funcs['isPhased'].sym(r).value == phased, cobj.funcs['alleleRepr'].sym(r).value == rep)))
@@ -239,6 +333,7 @@ def encode_decode(ctx, objs):
             ctx.add(core.valid('C34/decode/ploidy=2/engine-allele-pair-is-the-original-pair', hyp, z3.And(z3.Not(ap.throws), AP['j'].sym(ap.value).value == a0, AP['k'].sym(ap.value).value == a1)))
     ctx.under_contract(SCALA[0], 'Call.ploidy / isPhased / alleleRepr / allelePairUnchecked')
     ctx.under_contract(TYPES, 'small_allele_pair')
+    ctx.under_contract(CALLPY, 'Call.__eq__')
 
 
 # ---- (G) genotype index <-> allele pair ------------------------------------------------------------------------------------
